@@ -331,3 +331,13 @@ func nearBufferBoundary(cut int) string {
 	}
 	return ""
 }
+
+// useMode: the files above 100 KB are delivered one byte per Read (≈ 1 M Read calls per decode)
+// only at the cuts of sets (a), (c), (d); their 16 388 × 3 record-boundary cuts (b) run under the
+// other two reader behaviours. Every other file runs every cut under all three.
+func (f *File) useMode(cut int, mode string) bool {
+	if mode != "onebyte" || len(f.Data) <= 100_000 {
+		return true
+	}
+	return nearBufferBoundary(cut) != "" || cut >= len(f.Data)-64 || cut%97 == 0
+}
